@@ -69,6 +69,7 @@ type Result struct {
 	Switches   int            `json:"switch_pairs"`
 	Tape       []uint32       `json:"tape,omitempty"`
 	TapeLen    int            `json:"tape_len"`
+	TapeHash   string         `json:"tape_hash"`
 	Trace      []string       `json:"trace,omitempty"`
 	Detail     []string       `json:"detail,omitempty"`
 	Batch      string         `json:"batch,omitempty"`
@@ -546,8 +547,21 @@ func reg(p *propDef) { props[p.id] = p }
 
 func init() {
 	reg(&propDef{id: "C01", level: "exploration", crashIsViol: true,
-		batches: []batch{{name: "faultfree", params: map[string]string{"full": "1"}, quick: 1600, thorough: 60000}},
+		batches: []batch{{name: "faultfree", params: map[string]string{"full": "1"}, quick: 1600, thorough: 60000},
+			{name: "manyfiles", params: map[string]string{"many": "1"}, quick: 16, thorough: 300, chunk: 1}},
 		rule:    "each evaluation is one simulated end-to-end transfer (generated source tree x configuration vector x transport profile x schedule) on a fault-free link; non-trivial = both sides reported success and the file-system oracle compared every transferred entry; distinct = distinct (configuration class, schedule-trace hash) pairs"})
+	reg(&propDef{id: "C07", level: "exploration", crashIsViol: true,
+		batches: []batch{{name: "collisions", quick: 1200, thorough: 40000}},
+		rule:    "each evaluation is one simulated transfer without -y into an adversarially pre-populated destination (colliding files/dirs, name.N series with gaps, names at the length limit, all 1001 candidate names taken, repeated transfer of the same sources); non-trivial = the receive completed (or failed as it must) and the before/after snapshot (inode, size, hash, mtime) was compared; distinct = distinct (prior-state class + configuration, schedule-trace hash)"})
+	reg(&propDef{id: "C08", level: "exploration", crashIsViol: true,
+		batches: []batch{{name: "smallblocks", quick: 1200, thorough: 40000}, {name: "trueblocks", params: map[string]string{"big": "1"}, quick: 6, thorough: 120, chunk: 1}},
+		rule:    "each evaluation is one simulated -y transfer over pre-existing destination content related to the source by (relative length x first differing offset incl. on/just before/just after comparison-block boundaries); the block size is a per-run knob in batch smallblocks and the shipped 10 MiB in batch trueblocks; non-trivial = both sides reported success and destination bytes were compared with the source and the announced remaining size with the longest common prefix; distinct = distinct (relation class + configuration, schedule-trace hash)"})
+	reg(&propDef{id: "C15", level: "exploration", crashIsViol: true,
+		batches: []batch{{name: "component", params: map[string]string{"mode": "component"}, quick: 1500, thorough: 40000},
+			{name: "system", params: map[string]string{"mode": "system"}, quick: 500, thorough: 15000},
+			{name: "manyentries", params: map[string]string{"mode": "system", "many": "1"}, quick: 16, thorough: 200, chunk: 1}},
+		nofile: 0,
+		rule:   "component batch: real archive reader -> real archive writer with independent tape-chosen read sizes and write segmentations (all single cut positions for streams <= 200 bytes), optionally with a source file shrunk or grown between scan and read; system/manyentries batches: a directory sent as one archive stream between the real client and the real trz/tsz (150-300 entries in manyentries) with open descriptors sampled at every quiescent point; non-trivial = trees compared (or the shrink error observed); distinct = distinct (scenario class, schedule-trace hash)"})
 }
 
 // ---------------------------------------------------------------------------------------------
@@ -843,6 +857,7 @@ func main() {
 	var jobs []*Job
 	id := 0
 	batchOf := map[int]string{}
+	chunkOf := map[string]int{}
 	for _, b := range pd.batches {
 		if *onlyBatch != "" && b.name != *onlyBatch {
 			continue
@@ -864,13 +879,32 @@ func main() {
 			id++
 		}
 		if b.chunk > 0 {
-			pl.chunk = b.chunk
+			chunkOf[b.name] = b.chunk
 		}
 	}
 	if len(jobs) == 0 {
 		die(2, "no jobs")
 	}
-	results := pl.runAll(jobs)
+	var results []*Result
+	{
+		// batches with their own chunk size (e.g. one job per process) run separately
+		groups := map[int][]*Job{}
+		for _, j := range jobs {
+			c := chunkOf[batchOf[j.ID]]
+			groups[c] = append(groups[c], j)
+		}
+		def := pl.chunk
+		for c, js := range groups {
+			if c > 0 {
+				pl.chunk = c
+			} else {
+				pl.chunk = def
+			}
+			results = append(results, pl.runAll(js)...)
+		}
+		pl.chunk = def
+		sort.Slice(results, func(i, j int) bool { return results[i].ID < results[j].ID })
+	}
 	for _, r := range results {
 		r.Batch = batchOf[r.ID]
 	}
@@ -943,7 +977,7 @@ func main() {
 			switchMax = r.Switches
 		}
 		if r.Nontrivial {
-			distinct[r.ClassKey+"|"+r.TraceHash] = true
+			distinct[r.ClassKey+"|"+r.TraceHash+"|"+r.TapeHash] = true
 			classKeys[r.ClassKey] = true
 		}
 		switch r.Class {
